@@ -7,7 +7,7 @@ import coqlit as L
 import impl
 
 PROP_FILES = ["theories/Props/C12.v", "theories/Inst/C12_inst.v"]
-DEPS = ["theories/Proofs/C12_proofs.vo", "theories/Gen/Constants.vo"]
+DEPS = ["theories/Proofs/C12_proofs.vo", "theories/Proofs/SplitlinesFacts.vo", "theories/Gen/Constants.vo"]
 RANKS = ["UNDEFINED", "LOW", "MEDIUM", "HIGH"]
 
 SNIPPETS = [
